@@ -14,7 +14,7 @@ EXPLANATION = (
     "R05c: a TimedLink is created exactly when the destination is in the source's duration group, a plain Link otherwise, and the flush link is never a TimedLink; "
     "R05d: timed links are excluded from row 0 consistently (rescale accumulator and link write); "
     "R05e: keyring direction: arrivals enter the last row, each step shifts rows towards row 0, row 0 is what the flush link empties, the vacated last row is zeroed. "
-    "Occupancy bounds and uniform initial spread as numbers are not decided."
+    "R05f: every call of resolve_outflows recomputes the cached outflow before it returns (an early return would leave the previous step's outflow to be subtracted from the next arrivals). Occupancy bounds and uniform initial spread as numbers are not decided."
 )
 
 
@@ -25,6 +25,7 @@ def run(ctx):
     ctx.each(r05c, ctx, repo)
     ctx.each(r05d, ctx, repo)
     ctx.each(r05e, ctx, repo)
+    ctx.each(r05f, ctx, repo)
 
 
 SITES = (("model", "TimedCompartment.preallocate"), ("model", "TimedLink.preallocate"))
@@ -212,3 +213,17 @@ def thorough(ctx):
     from . import sweeps
 
     sweeps.discretisation_sweep(ctx, ctx.repo, "R05a")
+
+
+def r05f(ctx, repo):
+    from ..core.cfg import ENTRY, EXIT
+
+    ctx.rule("R05f", "resolve_outflows assigns self._cached_outflow on every path to a normal return (the cache is per step; update() subtracts it unconditionally)")
+    for q in ("Compartment.resolve_outflows", "TimedCompartment.resolve_outflows"):
+        fi = repo.func("model", q)
+        me = K.self_name(fi)
+        cfg = K.cfg(repo, fi)
+        resets = [s for s, t, k, v in astq.stores(fi.node) if k == "assign" and ast.unparse(t) == "%s._cached_outflow" % me]
+        ids = [i for r in resets for i in cfg.ids(r)]
+        leak = cfg.find_path([ENTRY], [EXIT], avoid_ids=ids)
+        ctx.check(bool(resets) and not leak, "R05f", fi, resets[0] if resets else fi.node, "cached outflow recomputed on every path", "%s can return without recomputing self._cached_outflow (%s): update() then subtracts the outflow of an earlier step from the next arrivals, so a cohort that enters an emptied compartment is lost instead of leaving through the timed outflow on time" % (q, cfg.describe_path(leak) if leak else "no reset"))
